@@ -77,22 +77,39 @@ def lean_build():
             fcntl.flock(lk, fcntl.LOCK_UN)
 
 
+# Props files that hold theorems of several properties (each named <PROP>_…, in the namespace of Props/<PROP>.lean):
+# E2EMonitor = the declarative readings of the end-to-end monitors' verdicts (C01, C02, C09, C12)
+SHARED_PROPS = ['E2EMonitor']
+
+
+def shared_modules(prop):
+    """shared Props files that contain theorems of this property"""
+    out = []
+    for extra in SHARED_PROPS:
+        path = os.path.join(LEAN, 'ScalesModel', 'Props', extra + '.lean')
+        if extra != prop and os.path.exists(path) and re.search(r'^theorem\s+%s_\w+' % prop, open(path).read(), re.M):
+            out.append(extra)
+    return out
+
+
 def prop_theorems(prop):
-    """(name, statement-hash) of every property theorem in Props/<prop>.lean."""
+    """(name, statement-hash) of every property theorem in Props/<prop>.lean (and in the shared Props files)."""
     path = os.path.join(LEAN, 'ScalesModel', 'Props', prop + '.lean')
     src = open(path).read()
-    names = re.findall(r'^theorem\s+(%s_\w+)' % prop, src, re.M)
     out = []
-    for n in names:
-        m = re.search(r'^theorem\s+%s\b(.*?):=' % re.escape(n), src, re.M | re.S)
-        stmt = re.sub(r'\s+', ' ', m.group(1)).strip() if m else ''
-        out.append((n, hashlib.sha256(stmt.encode()).hexdigest()[:16]))
+    for text in [src] + [open(os.path.join(LEAN, 'ScalesModel', 'Props', x + '.lean')).read()
+                         for x in shared_modules(prop)]:
+        names = re.findall(r'^theorem\s+(%s_\w+)' % prop, text, re.M)
+        for n in names:
+            m = re.search(r'^theorem\s+%s\b(.*?):=' % re.escape(n), text, re.M | re.S)
+            stmt = re.sub(r'\s+', ' ', m.group(1)).strip() if m else ''
+            out.append((n, hashlib.sha256(stmt.encode()).hexdigest()[:16]))
     return out, src
 
 
 def lean_sources_for(prop):
     """All Lean files Props/<prop>.lean transitively imports inside this project."""
-    seen, todo = [], ['ScalesModel.Props.' + prop]
+    seen, todo = [], ['ScalesModel.Props.' + prop] + ['ScalesModel.Props.' + x for x in shared_modules(prop)]
     while todo:
         mod = todo.pop()
         path = os.path.join(LEAN, *mod.split('.')) + '.lean'
@@ -146,6 +163,8 @@ def audit(prop, work):
     audit_file = work.path('Audit_%s.lean' % prop)
     with open(audit_file, 'w') as f:
         f.write('import ScalesModel.Props.%s\n' % prop)
+        for x in shared_modules(prop):
+            f.write('import ScalesModel.Props.%s\n' % x)
         for n, _ in thms:
             f.write('#print axioms %s%s\n' % (ns, n))
     p = subprocess.run(['lake', 'env', 'lean', audit_file], cwd=LEAN, stdout=subprocess.PIPE,
